@@ -331,8 +331,12 @@ class RexDriver(Check):
 
     # -------------------------------------------------------- diagnosis
     def cures(self, supplied, focus=None):
-        """Candidate root causes as (signature, [(old, new), ...]): families
-        of character substitutions that remove one suspected trigger."""
+        """Known root causes as (signature, [substitution lists]).  Each list
+        removes the suspected trigger in a different way; the cause is
+        accepted only if EVERY one of them makes the failure disappear (so a
+        defect that merely involves the same character is not attributed).
+          non-ASCII str.isdigit() characters -> '7' / -> a non-ASCII letter
+          {^,-}: '^' -> '~' / '-' -> '~'  (either breaks up the pair)"""
         strings = [s for s in supplied if s is not None]
         chars = set(''.join(strings))
         out = []
@@ -348,31 +352,70 @@ class RexDriver(Check):
                 if first:
                     break
             out.append(('nonascii-digit:U+%04X' % ord(first),
-                        [(c, '7') for c in nad]))
+                        [[(c, '7') for c in nad],
+                         [(c, '\u00e8') for c in nad]]))
         if '^' in chars and '-' in chars:
-            out.append(('bracket:{^,-}', [('^', '~')]))
+            out.append(('bracket:{^,-}', [[('^', '~')], [('-', '~')]]))
         return out
 
-    def diagnose(self, supplied, still_fails, focus=None):
-        """still_fails(supplied') -> bool re-runs the same configuration on a
-        substituted input.  Returns the signature of the (combination of)
-        substitution families that makes the failure disappear, or None."""
+    def diagnose(self, supplied, opts, fails, focus=None):
+        """fails(supplied', opts') -> bool re-runs the configuration on a
+        modified input.  Returns a root-cause signature: a known cause (or a
+        combination of them) established by counterfactual substitution, else
+        the minimised trigger `opts=<needed options>:chars={needed classes}`."""
         cures = self.cures(supplied, focus)
 
         def apply(s2, subs):
             for (old, new) in subs:
                 s2 = substitute(s2, old, new)
             return s2
-        for (sig, subs) in cures:
-            if not still_fails(apply(supplied, subs)):
-                return sig
-        if len(cures) > 1:
-            s2 = supplied
-            for (sig, subs) in cures:
-                s2 = apply(s2, subs)
-            if not still_fails(s2):
-                return '+'.join(c[0] for c in cures)
-        return None
+
+        def cured(families):
+            nways = max(len(f[1]) for f in families)
+            for w in range(nways):
+                s2 = supplied
+                for (sig, ways) in families:
+                    s2 = apply(s2, ways[min(w, len(ways) - 1)])
+                if fails(s2, opts):
+                    return False
+            return True
+        for fam in cures:
+            if cured([fam]):
+                return fam[0]
+        if len(cures) > 1 and cured(cures):
+            return '+'.join(c[0] for c in cures)
+        return self.minimise(supplied, opts, fails)
+
+    def minimise(self, supplied, opts, fails):
+        """Greedy reduction of a failing (input, options): reset each
+        non-default option that is not needed, replace by the neutral letter
+        'q' each character that is not needed.  Names what remains."""
+        ax = dict(A.OPTION_AXES)
+        ax.update(A.PRUNE_AXES)
+        cur = dict(opts)
+        need = {}
+        for k in list(A.OPTION_AXES) + list(A.PRUNE_AXES):
+            if k in cur and cur[k] != ax[k][0]:
+                trial = dict(cur)
+                trial[k] = ax[k][0]
+                if fails(supplied, trial):
+                    cur = trial
+                else:
+                    need[k] = cur[k]
+        cur_s = supplied
+        needc = []
+        strings = [s for s in supplied if s is not None]
+        for c in sorted(set(''.join(strings))):
+            if c == 'q':
+                continue
+            t = substitute(cur_s, c, 'q')
+            if fails(t, cur):
+                cur_s = t
+            else:
+                needc.append(c)
+        return 'opts=%s:chars={%s}' % (
+            A.opt_key(need), ','.join(sorted(set(char_class(c)
+                                                 for c in needc))))
 
 
 class C03(RexDriver):
@@ -441,23 +484,23 @@ class C03(RexDriver):
         else:
             R.out('raises:%s' % type(exc).__name__)
 
-        def still_fails(s2):
-            r2, e2, u2 = self.failing(s2, form, opts)
+        def fails(s2, o2):
+            r2, e2, u2 = self.failing(s2, form, o2)
             R.ev(1, checked=0)
             return e2 is not None or bool(u2)
 
-        cause = self.diagnose(supplied, still_fails, um)
+        cause = self.diagnose(supplied, opts, fails, um)
         detail = {'examples': supplied, 'form': form,
                   'options': A.opt_key(opts)}
         if exc is not None:
             detail['exception'] = repr(exc)[:300]
-            R.viol('raises:%s%s' % (type(exc).__name__,
-                                    ':' + cause if cause else ''),
+            R.viol('raises:%s:%s' % (type(exc).__name__, cause),
                    'extract-returns', detail, sub)
             return
         detail['returned'] = rex
         detail['unmatched'] = um
-        R.viol(cause or 'unmatched:%s' % classes_of(um[0]),
+        R.viol(cause if not cause.startswith('opts=')
+               else 'unmatched:' + cause,
                'every-kept-example-matched', detail, sub)
 
     def run_unsampled(self, R, case):
@@ -513,12 +556,13 @@ class C03(RexDriver):
                 baseline['fails'] = e0 is not None or bool(u0)
             if baseline['fails']:
                 # not specific to sampling: diagnose on the unsampled route
-                def still_fails(s2):
-                    r2, e2, u2 = self.failing(s2, form, opts)
+                def fails(s2, o2):
+                    r2, e2, u2 = self.failing(s2, form, o2)
                     R.ev(1, checked=0)
                     return e2 is not None or bool(u2)
-                sig = (self.diagnose(supplied, still_fails, um)
-                       or 'unmatched:%s' % classes_of(um[0]))
+                sig = self.diagnose(supplied, opts, fails, um)
+                if sig.startswith('opts='):
+                    sig = 'unmatched:' + sig
             elif nsamp == 0:
                 sig = 'size-unsampled:unmatched'
             elif working is None:
